@@ -67,6 +67,57 @@ Definition rol (w a c : Z) : Z :=
 Definition ror (w a c : Z) : Z :=
   let r := c mod w in wrap w (Z.lor (Z.shiftr a r) (Z.shiftl a (w - r))).
 
+(** the lifter's named integer operators (never evaluated by the library itself): their arithmetic meaning.
+    N-bit operands are taken from the low N bits of the arguments. *)
+Definition bit_scan_fwd (v : Z) : Z :=
+  (fix go (n : nat) (i : Z) : Z := match n with O => 0 | S k => if Z.testbit v i then i else go k (i + 1) end) 64%nat 0.
+Definition bit_scan_rev (v : Z) : Z := if v <=? 0 then 0 else Z.log2 v.
+Definition quot_trunc (a b : Z) : Z := Z.quot a b.
+Definition named_op (op : string) (vs : list Z) : option Z :=
+  let mulu n a b := (wrap n a) * (wrap n b) in
+  let muls n a b := (sgn n a) * (sgn n b) in
+  let big n hi lo := wrap n hi * 2 ^ n + wrap n lo in
+  let sbig n hi lo := sgn (2 * n) (big n hi lo) in
+  let is n := (op =? n)%string in
+  match vs with
+  | [a; b] =>
+      if is "umul32_lo" then Some (wrap 32 (mulu 32 a b)) else if is "umul32_hi" then Some (Z.shiftr (mulu 32 a b) 32)
+      else if is "umul16_lo" then Some (wrap 16 (mulu 16 a b)) else if is "umul16_hi" then Some (Z.shiftr (mulu 16 a b) 16)
+      else if is "umul08" then Some (mulu 8 a b)
+      else if is "imul32_lo" then Some (wrap 32 (muls 32 a b)) else if is "imul32_hi" then Some (wrap 32 (Z.shiftr (muls 32 a b) 32))
+      else if is "imul16_lo" then Some (wrap 16 (muls 16 a b)) else if is "imul16_hi" then Some (wrap 16 (Z.shiftr (muls 16 a b) 16))
+      else if is "imul08" then Some (wrap 16 (muls 8 a b))
+      else None
+  | [hi; lo; d] =>
+      let udiv n := if wrap n d =? 0 then 0 else wrap n (big n hi lo / wrap n d) in
+      let urem n := if wrap n d =? 0 then 0 else wrap n (big n hi lo mod wrap n d) in
+      let sdiv n := if wrap n d =? 0 then 0 else wrap n (Z.quot (sbig n hi lo) (sgn n d)) in
+      let srem n := if wrap n d =? 0 then 0 else wrap n (Z.rem (sbig n hi lo) (sgn n d)) in
+      if is "div8" then Some (udiv 8) else if is "div16" then Some (udiv 16) else if is "div32" then Some (udiv 32)
+      else if is "rem8" then Some (urem 8) else if is "rem16" then Some (urem 16) else if is "rem32" then Some (urem 32)
+      else if is "idiv8" then Some (sdiv 8) else if is "idiv16" then Some (sdiv 16) else if is "idiv32" then Some (sdiv 32)
+      else if is "irem8" then Some (srem 8) else if is "irem16" then Some (srem 16) else if is "irem32" then Some (srem 32)
+      else None
+  | [a] => if is "bsf" then Some (bit_scan_fwd a) else if is "bsr" then Some (bit_scan_rev a) else None
+  | _ => None
+  end.
+
+Definition rc_ring (left : bool) (w a c f : Z) : Z :=
+  let n := w + 1 in
+  let r := (Z.land c 31) mod n in
+  let t := Z.lor (Z.shiftl (wrap w a) 1) (wrap 1 f) in
+  wrap n (if left then Z.lor (Z.shiftl t r) (Z.shiftr t (n - r)) else Z.lor (Z.shiftr t r) (Z.shiftl t (n - r))).
+Definition rc_op (op : string) (w : Z) (vs : list Z) : option Z :=
+  match vs with
+  | [a; c; f] =>
+      if (op =? "<<<c_rez")%string then Some (Z.shiftr (rc_ring true w a c f) 1)
+      else if (op =? "<<<c_cf")%string then Some (Z.land (rc_ring true w a c f) 1)
+      else if (op =? ">>>c_rez")%string then Some (Z.shiftr (rc_ring false w a c f) 1)
+      else if (op =? ">>>c_cf")%string then Some (Z.land (rc_ring false w a c f) 1)
+      else None
+  | _ => None
+  end.
+
 (** value of an operator node of width w (= width of its first operand) on operand values that are
     already reduced to their own widths; [iota] interprets every operator not listed in the property *)
 Definition eval_op (iota : string -> list Z -> Z) (op : string) (w : Z) (vs : list Z) : Z :=
@@ -88,7 +139,8 @@ Definition eval_op (iota : string -> list Z -> Z) (op : string) (w : Z) (vs : li
   | OEq, [a; b] => if a =? b then wrap w 1 else 0
   | OParity, [a] => wrap w (parity8 a)
   | ONot, [a] => wrap w (Z.lnot a)
-  | _, _ => wrap w (iota op vs)
+  | _, _ => match rc_op op w vs with Some v => wrap w v | None =>
+            match named_op op vs with Some v => wrap w v | None => wrap w (iota op vs) end end
   end.
 
 Section Eval.
